@@ -218,13 +218,14 @@ func allChecksRaw() []*Check {
 				{Name: "C15.LAny.3", Pkg: "markdown", Entry: "VerifLAny", N: 3, RealParse: true, Expect: []string{"LA.oneof", "LA.hierarchy", "LA.text", "LA.errclass"}},
 				{Name: "C15.same.3", Pkg: "gtree", Entry: "VerifC15Same", N: 3, RealParse: true, Expect: []string{"C15.canon.nil", "C15.spelling.nil", "C15.same"}},
 				{Name: "C15.same.sym2", Pkg: "gtree", Entry: "VerifC15Same", N: 102, RealParse: true, Expect: []string{"C15.canon.nil", "C15.spelling.nil", "C15.same"}},
-				{Name: "C15.same.blank3", Pkg: "gtree", Entry: "VerifC15Same", N: 13, RealParse: true, Expect: []string{"C15.canon.nil", "C15.spelling.nil", "C15.same"}},
-				{Name: "C15.same.massive.blank3", Pkg: "gtree", Entry: "VerifC15Same", N: 1013, RealParse: true, Expect: []string{"C15.canon.nil", "C15.spelling.nil/massive", "C15.same/massive", "C15.noleak"}},
+				{Name: "C15.same.blankkinds2", Pkg: "gtree", Entry: "VerifC15Same", N: 22, RealParse: true, Expect: []string{"C15.canon.nil", "C15.spelling.nil", "C15.same"}},
+				{Name: "C15.same.massive.blankkinds2", Pkg: "gtree", Entry: "VerifC15Same", N: 1022, RealParse: true, Expect: []string{"C15.canon.nil", "C15.spelling.nil/massive", "C15.same/massive", "C15.noleak"}},
 				{Name: "C15.LScan.5", Pkg: "gtree", Entry: "VerifLScan", N: 5, RealParse: true, RealScan: true, Expect: []string{"LS.err", "LS.lines", "LS.end"}},
 				{Name: "C15.lines.3", Pkg: "gtree", Entry: "VerifC15Lines", N: 3, RealParse: true, RealScan: true, Expect: []string{"C15.lines.nil/text", "C15.lines.same/text", "C15.lines.same/noiter", "C15.lines.same/json", "C15.lines.same/dryrun", "C15.lines.end"}},
 				{Name: "C15.lines.massive3", Pkg: "gtree", Entry: "VerifC15Lines", N: 13, RealParse: true, RealScan: true, Expect: []string{"C15.lines.nil/massive", "C15.lines.same/massive", "C15.lines.noleak", "C15.lines.end"}},
 			},
 			Thorough: []Job{
+				{Name: "C15.same.massive.blank3", Pkg: "gtree", Entry: "VerifC15Same", N: 1013, RealParse: true, Expect: []string{"C15.canon.nil", "C15.spelling.nil/massive", "C15.same/massive", "C15.noleak"}},
 				{Name: "C15.same.massive.blank4", Pkg: "gtree", Entry: "VerifC15Same", N: 1014, RealParse: true, Expect: []string{"C15.canon.nil", "C15.spelling.nil/massive", "C15.same/massive", "C15.noleak"}},
 				{Name: "C15.LScan.7", Pkg: "gtree", Entry: "VerifLScan", N: 7, RealParse: true, RealScan: true, Expect: []string{"LS.err", "LS.lines", "LS.end"}},
 				{Name: "C15.lines.4", Pkg: "gtree", Entry: "VerifC15Lines", N: 4, RealParse: true, RealScan: true, Expect: []string{"C15.lines.nil/text", "C15.lines.same/text", "C15.lines.same/noiter", "C15.lines.same/json", "C15.lines.same/dryrun", "C15.lines.end"}},
@@ -238,7 +239,7 @@ func allChecksRaw() []*Check {
 				{Name: "C15.same.blank3", Pkg: "gtree", Entry: "VerifC15Same", N: 13, RealParse: true, Expect: []string{"C15.canon.nil", "C15.spelling.nil", "C15.same"}},
 				{Name: "C15.same.sym2", Pkg: "gtree", Entry: "VerifC15Same", N: 102, RealParse: true, Expect: []string{"C15.canon.nil", "C15.spelling.nil", "C15.same"}},
 			},
-			Bounds: "L-parse (real Parser.Parse, one inductive step from every state an accepted prefix can leave: fresh / after a root / after root+child (unit learnt) / after root+child+root, each with and without a leading heading): notation = indent char space|tab x unit 1..4 x bullet -,*,+ per row x # roots or not; row depth 0..3; names of 2 (quick) / 3 (thorough) arbitrary ASCII bytes, 2 bytes over all 256 values (thorough); headings #..### with/without the space; malformation classes no-bullet, empty text, indentation not a multiple of the unit, tabs and spaces mixed within one row, a row indented with the other character once the document's character is known (also after a new root), whitespace-only; arbitrary rows of 3/4 bytes (result/err exclusive, text non-empty). End to end (real parser + real tree code, text output): forests of 3 (quick) / 4 (thorough) rows, canonical spelling vs every member of the notation family, with a blank or whitespace-only row at any position (also in front of the first root), the spelling also through massive mode (same per-root blocks), with the first byte of every name symbolic for 2 rows. L-scan (real bufio.Scanner, bufio.ScanLines and strings.Reader from std's SSA): documents of 5 (quick) / 7 (thorough) arbitrary bytes over all 256 values are split exactly as the line contract of the tree-level harnesses says (split at LF, one trailing CR dropped, unterminated last line delivered iff non-empty); end to end with the real scanner: forests of 3/4 rows with LF or CRLF per row, with/without the last terminator, with 0..2 empty lines appended, text (both routes), JSON, dry-run and massive-mode text give byte-identical results. Assumed: heading names have no leading/trailing blanks and no leading '#'. Tree-level insensitivity to blank rows: C01; the splitter (massive mode): C10.",
+			Bounds: "L-parse (real Parser.Parse, one inductive step from every state an accepted prefix can leave: fresh / after a root / after root+child (unit learnt) / after root+child+root, each with and without a leading heading): notation = indent char space|tab x unit 1..4 x bullet -,*,+ per row x # roots or not; row depth 0..3; names of 2 (quick) / 3 (thorough) arbitrary ASCII bytes, 2 bytes over all 256 values (thorough); headings #..### with/without the space; malformation classes no-bullet, empty text, indentation not a multiple of the unit, tabs and spaces mixed within one row, a row indented with the other character once the document's character is known (also after a new root), whitespace-only; arbitrary rows of 3/4 bytes (result/err exclusive, text non-empty). End to end (real parser + real tree code, text output): forests of 3 (quick) / 4 (thorough) rows, canonical spelling vs every member of the notation family, with a blank or whitespace-only row (blanks, tabs; in two-row jobs also form feed, vertical tab, a stray CR, U+00A0, U+3000) at any position (also in front of the first root), the spelling also through massive mode (same per-root blocks), with the first byte of every name symbolic for 2 rows. L-scan (real bufio.Scanner, bufio.ScanLines and strings.Reader from std's SSA): documents of 5 (quick) / 7 (thorough) arbitrary bytes over all 256 values are split exactly as the line contract of the tree-level harnesses says (split at LF, one trailing CR dropped, unterminated last line delivered iff non-empty); end to end with the real scanner: forests of 3/4 rows with LF or CRLF per row, with/without the last terminator, with 0..2 empty lines appended, text (both routes), JSON, dry-run and massive-mode text give byte-identical results. Assumed: heading names have no leading/trailing blanks and no leading '#'. Tree-level insensitivity to blank rows: C01; the splitter (massive mode): C10.",
 			Assume: append([]string{"real std strings code executed on symbolic bytes (leaf intrinsics: bytealg.IndexByteString, CountString, MakeNoZero; 256-entry tables as ite chains)"}, commonAssume...),
 		},
 		{
@@ -348,6 +349,7 @@ func allChecksRaw() []*Check {
 				// the data-race clause on C10's operation family (text, JSON, dry-run, walk, mkdir, verify on documents with
 				// blank / malformed rows and # roots): the happens-before detector rides on the same harness
 				gjf("C11.race.ops.n2", "VerifC10", 2, "C10.noleak", "C10.end"),
+				{Name: "C11.many", Pkg: "gtree", Entry: "VerifC11Many", N: 0, FSModel: true, RealParse: true, Expect: []string{"C11.many.returns", "C11.many.reported", "C11.noleak/many"}},
 				{Name: "C11.long.n2.ryield", Pkg: "gtree", Entry: "VerifC11Long", N: 2, FSModel: true, Sched: "fifo-ryield", Expect: []string{"C11.long.returns", "C11.long.ctxerr.only", "C11.noleak/long", "C11.stops/reader"}},
 				gjf("C11.fail.n3", "VerifC11Fail", 3, "C11.returns/parse", "C11.returns/validate", "C11.returns/write", "C11.returns/callback", "C11.returns/fs", "C11.returns/reader", "C11.reported/parse", "C11.noleak/parse", "C11.noleak/write", "C11.noleak/fs"),
 				{Name: "C11.fail.n3.fifo-lastsel", Pkg: "gtree", Entry: "VerifC11Fail", N: 3, FSModel: true, Sched: "fifo-lastsel", Expect: []string{"C11.returns/parse", "C11.returns/callback", "C11.reported/callback", "C11.noleak/parse"}},
@@ -374,7 +376,7 @@ func allChecksRaw() []*Check {
 				{Name: "C11.fail.n3.rnd8", Pkg: "gtree", Entry: "VerifC11Fail", N: 3, FSModel: true, Sched: "rnd8", Expect: []string{"C11.returns/parse", "C11.noleak/parse"}},
 				{Name: "C11.root.n3.rnd8", Pkg: "gtree", Entry: "VerifC11Root", N: 3, FSModel: true, Sched: "rnd8", Expect: []string{"C11.root.returns", "C11.noleak/root"}},
 			},
-			Bounds: "N root blocks (quick 3, thorough 4) of which an arbitrary subset fails, one failure stage per run: parse error, name validation error, writer refusing every write, walk callback error, mkdir with pre-existing roots, failing reader; cancellation of the caller's context at synchronisation event k (k = 0 i.e. before the call, 1..20, then every 8th up to 172, or never) for text output, walk and JSON on N=2/3 roots, and for the From-Root massive routes; a blocked main goroutine with nothing runnable is a deadlock (call never returns); verifQuiesce runs everything runnable after the return and counts goroutines still alive. Policies FIFO (all), LIFO and last-ready select (thorough), pseudo-random schedules (rndK: run-queue pick and select rotation are a deterministic function of a seed in 0..K-1 that is a case-split symbol of the path; K=4 quick on the one-root cancel job, K=8 thorough). Long block (VerifC11Long): one root with 6 (quick) / 8-10 (thorough) children, or a heading with that many list rows -- a single block for the splitter -- under the read-yield policies (every row read is a scheduling point and a cancellation instant), cancellation at event 0..24: the call returns nil or the context's error, leaves nothing behind, and at most one more row is read after it has returned. Data-race clause: every job runs with the happens-before (vector-clock) detector over the interpreted execution (go, channels, select, Mutex, WaitGroup, errgroup, context, sync/atomic, sync.Pool as synchronisation edges; loads, stores, map accesses, append, copy of library code as accesses; harness memory is user memory except the io.Writer the library writes to), also on C10's whole operation family (VerifC10: text, JSON, dry-run, walk, mkdir, verify on documents with blank / malformed rows and # roots); a report is confirmed on a -race build of the native harness. NOT decided: arbitrary schedules; weak-memory effects; races on memory touched only by host-level stubs. (The unsynchronised Parser.isSharpRoot write named in the anchors is gone since the D7 repair: each block has its own parser.)",
+			Bounds: "N root blocks (quick 3, thorough 4) of which an arbitrary subset fails, one failure stage per run: parse error, name validation error, writer refusing every write, walk callback error, mkdir with pre-existing roots, failing reader; cancellation of the caller's context at synchronisation event k (k = 0 i.e. before the call, 1..20, then every 8th up to 172, or never) for text output, walk and JSON on N=2/3 roots, and for the From-Root massive routes; a blocked main goroutine with nothing runnable is a deadlock (call never returns); verifQuiesce runs everything runnable after the return and counts goroutines still alive. Policies FIFO (all), LIFO and last-ready select (thorough), pseudo-random schedules (rndK: run-queue pick and select rotation are a deterministic function of a seed in 0..K-1 that is a case-split symbol of the path; K=4 quick on the one-root cancel job, K=8 thorough). Many failing blocks (VerifC11Many): 11 or 12 root blocks that all fail in one stage (more than the ten workers a stage has), with or without a good block behind them, on text, walk, dry-run, mkdir, verify: returns, reports, leaves nothing behind. Long block (VerifC11Long): one root with 6 (quick) / 8-10 (thorough) children, or a heading with that many list rows -- a single block for the splitter -- under the read-yield policies (every row read is a scheduling point and a cancellation instant), cancellation at event 0..24: the call returns nil or the context's error, leaves nothing behind, and at most one more row is read after it has returned. Data-race clause: every job runs with the happens-before (vector-clock) detector over the interpreted execution (go, channels, select, Mutex, WaitGroup, errgroup, context, sync/atomic, sync.Pool as synchronisation edges; loads, stores, map accesses, append, copy of library code as accesses; harness memory is user memory except the io.Writer the library writes to), also on C10's whole operation family (VerifC10: text, JSON, dry-run, walk, mkdir, verify on documents with blank / malformed rows and # roots); a report is confirmed on a -race build of the native harness. NOT decided: arbitrary schedules; weak-memory effects; races on memory touched only by host-level stubs. (The unsynchronised Parser.isSharpRoot write named in the anchors is gone since the D7 repair: each block has its own parser.)",
 			Assume: append([]string{parseContract, pathContract, fsModel, "engine-native goroutines/channels/select/sync/context/errgroup under a deterministic cooperative scheduler; every explored schedule is legal, not every legal schedule is explored"}, commonAssume...),
 		},
 		{
@@ -398,6 +400,7 @@ func allChecksRaw() []*Check {
 				{Name: "C17.wf.n4", Pkg: "gtree", Entry: "VerifC17WF", N: 4, FSModel: true, Wasm: true, Expect: []string{"C17.out.wf/text", "C17.out.wf/json", "C17.out.wf/dryrun"}},
 				{Name: "C17.names.2x2", Pkg: "gtree", Entry: "VerifC17Names", N: 22, Wasm: true, Expect: []string{"C17.acc.names/text", "C17.acc.names/json", "C17.acc.names/dryrun", "C17.out.names/text", "C17.out.names/json", "C17.out.names/dryrun"}},
 				{Name: "C17.long.full", Pkg: "gtree", Entry: "VerifC17Long", N: 1, Wasm: true, RealParse: true, RealScan: true, Expect: []string{"C17.acc.long/text", "C17.out.long/text", "C17.long.end"}},
+				{Name: "C17.units", Pkg: "gtree", Entry: "VerifC17Units", N: 0, Wasm: true, RealParse: true, Expect: []string{"C17.acc.units/text", "C17.out.units/text", "C17.units.end"}},
 			},
 			Thorough: []Job{
 				{Name: "C17.any.n5", Pkg: "gtree", Entry: "VerifC17", N: 5, FSModel: true, Wasm: true, Expect: []string{"C17.acc.any/text", "C17.acc.any/json", "C17.acc.any/dryrun", "C17.out.any/text", "C17.out.any/json", "C17.out.any/dryrun"}},
@@ -406,7 +409,7 @@ func allChecksRaw() []*Check {
 				{Name: "C17.names.2x3", Pkg: "gtree", Entry: "VerifC17Names", N: 23, Wasm: true, Expect: []string{"C17.acc.names/text", "C17.acc.names/json", "C17.acc.names/dryrun", "C17.out.names/text", "C17.out.names/json", "C17.out.names/dryrun"}},
 				{Name: "C17.long.full", Pkg: "gtree", Entry: "VerifC17Long", N: 1, Wasm: true, RealParse: true, RealScan: true, Expect: []string{"C17.acc.long/text", "C17.out.long/text", "C17.long.end"}},
 			},
-			Bounds: "documents of N rows (quick 4, thorough 5): item rows at any depth up to two levels below the previous row (level jumps, indented first row), at most one blank / no-bullet / empty-text row at any position; and well-formed forests of N rows (quick 4, thorough 6); options: text with 4 opaque branch strings, JSON record, dry-run report with 0..1 opaque extension; both variants compiled into one SSA program (the tinywasm file set regenerated from /repo's working tree on every run). Byte level (real path code of both variants, no path contracts): forests of 2 rows x names of 1..2 arbitrary ASCII bytes (quick), 3 rows x 1..2 bytes and 2 rows x 1..3 bytes (thorough), so '.', '..' and names containing '/' occur as root and as child; text, JSON, dry-run with and without the extension '.x'. Line limit (real bufio.Scanner in both variants): a root row of 65535 bytes (fits), 65536 bytes (does not) or 131068 bytes, one arbitrary name byte, with or without a short second root: same decision, same text. Outside: YAML/TOML (absent from the tinywasm variant), cmd/gtree-wasm's JavaScript glue.",
+			Bounds: "documents of N rows (quick 4, thorough 5): item rows at any depth up to two levels below the previous row (level jumps, indented first row), at most one blank / no-bullet / empty-text row at any position; and well-formed forests of N rows (quick 4, thorough 6); options: text with 4 opaque branch strings, JSON record, dry-run report with 0..1 opaque extension; both variants compiled into one SSA program (the tinywasm file set regenerated from /repo's working tree on every run). Byte level (real path code of both variants, no path contracts): forests of 2 rows x names of 1..2 arbitrary ASCII bytes (quick), 3 rows x 1..2 bytes and 2 rows x 1..3 bytes (thorough), so '.', '..' and names containing '/' occur as root and as child; text, JSON, dry-run with and without the extension '.x'. Notation across blocks (real parser in both variants): two root blocks whose indented rows use 1..4 blanks or a tab per level each, list or # roots: same decision, same text. Line limit (real bufio.Scanner in both variants): a root row of 65535 bytes (fits), 65536 bytes (does not) or 131068 bytes, one arbitrary name byte, with or without a short second root: same decision, same text. Outside: YAML/TOML (absent from the tinywasm variant), cmd/gtree-wasm's JavaScript glue.",
 			Assume: append([]string{parseContract, pathContract, encStub, "the tinywasm variant is type-checked and executed as package gtree/zz_verif_wasm with build tag verif standing in for tinywasm (file selection by the original constraints)"}, commonAssume...),
 		},
 	}
